@@ -21,6 +21,7 @@
 #include "core/Memory.h"
 #include "disasm/riscv.h"
 #include "disasm/msp430.h"
+#include "disasm/6502.h"
 
 typedef int (*disasm_one_t)(Memory *, uint32_t, char *, int, int, int *, int *);
 
@@ -35,6 +36,7 @@ static IsaCpu isa_cpus[] =
 {
   { "riscv",   disasm_riscv },
   { "msp430",  disasm_msp430 },
+  { "6502",    disasm_6502 },
   { NULL, NULL }
 };
 
